@@ -384,7 +384,7 @@ def validate_real_tables(tag, entries):
     d = os.path.join(vlib.BUILD, 'vm')
     os.makedirs(d, exist_ok=True)
     head = ['From Coq Require Import List. Import ListNotations.',
-            'From Kiki Require Import Data LR.Driver LR.Grammar LR.Inv LR.Validate.', 'Open Scope nat_scope.']
+            'From Kiki Require Import Data LR.Driver LR.Grammar LR.Inv LR.Validate LR.Term.', 'Open Scope nat_scope.']
 
     def compiles(idxs):
         path = os.path.join(d, 'validate_%s_%d.v' % (tag, os.getpid()))
@@ -399,6 +399,7 @@ def validate_real_tables(tag, entries):
 
     idxs = [i for i, g in enumerate(goals) if g is not None]
     bad = [entries[i][0] for i, g in enumerate(goals) if g is None]
+    validate_real_tables.certified = sum(1 for g in goals if g is not None and 'Goal term_check' in g)
     ok, out = compiles(idxs)
     if ok:
         return len(idxs), bad, ''
@@ -451,6 +452,7 @@ def behaviour_check(ctx, pid):
             entries.append((i, parsed_i, decode_ok(x)))
     nval, badval, vlog = validate_real_tables(pid, entries)
     res.extra['real_tables_validated_in_coq'] = nval
+    res.extra['termination_certificates_checked_in_coq'] = getattr(validate_real_tables, 'certified', 0)
     checked = 0
     for i, ((g, s, x), ws) in enumerate(zip(grammars, inputs)):
         parsed = oracles.parse_mt(mt[i])
